@@ -211,7 +211,51 @@ func runReinit(p *Program, r *RuleResult) {
 		if !runScoped {
 			continue
 		}
-		isAssign := func(in ssa.Instruction) bool {
+		var isAssign func(in ssa.Instruction) bool
+		// a reset helper: a first-party function taking the environment that assigns the
+		// field freshly before every one of its returns (one level)
+		helperAssigns := func(in ssa.Instruction) bool {
+			c, ok := in.(*ssa.Call)
+			if !ok {
+				return false
+			}
+			sc := c.Common().StaticCallee()
+			if sc == nil || sc.Blocks == nil || !p.isFirstParty(sc) || sc == fn {
+				return false
+			}
+			takesEnv := false
+			for _, a := range c.Common().Args {
+				if pt, ok := a.Type().Underlying().(*types.Pointer); ok && types.Identical(pt.Elem(), re) {
+					takesEnv = true
+				}
+			}
+			if !takesEnv {
+				return false
+			}
+			hv := p.View(sc)
+			nRet := 0
+			for _, b := range hv.Blocks() {
+				ins := hv.Instrs(b)
+				ret, ok := ins[len(ins)-1].(*ssa.Return)
+				if !ok {
+					continue
+				}
+				nRet++
+				if !hv.passedBefore(ret, func(x ssa.Instruction) bool {
+					if _, isCall := x.(*ssa.Call); isCall {
+						return false
+					}
+					return isAssign(x)
+				}) {
+					return false
+				}
+			}
+			return nRet > 0
+		}
+		isAssign = func(in ssa.Instruction) bool {
+			if helperAssigns(in) {
+				return true
+			}
 			stt, ok := in.(*ssa.Store)
 			if !ok {
 				return false
